@@ -138,6 +138,27 @@ func genOpenLines(r *simrt.Rand, l latticeCfg) *Shape {
 	return sh
 }
 
+// genManyContours: a grid of 32-60 small closed shapes (what outlined text or a tiling looks like):
+// operations that treat subpaths one by one get enough of them to take a "large input" path.
+func genManyContours(r *simrt.Rand, l latticeCfg) *Shape {
+	sh := &Shape{Family: "many"}
+	n := 32 + r.Intn(29)
+	cols := 8
+	for i := 0; i < n; i++ {
+		x, y := float64(i%cols)*l.cell*1.5, float64(i/cols)*l.cell*1.5
+		w, h := l.cell*(0.4+0.2*float64(r.Intn(3))), l.cell*(0.4+0.2*float64(r.Intn(3)))
+		switch r.Intn(3) {
+		case 0:
+			sh.Segs = append(sh.Segs, polygon([][2]float64{{x, y}, {x + w, y}, {x + w, y + h}, {x, y + h}}, true)...)
+		case 1:
+			sh.Segs = append(sh.Segs, polygon([][2]float64{{x, y}, {x + w, y + h/2}, {x, y + h}}, true)...)
+		default:
+			sh.Segs = append(sh.Segs, Seg{C: "M", A: []float64{x + w, y + h/2}}, Seg{C: "A", A: []float64{w / 2, h / 2, 0, 0, 1, x, y + h/2}}, Seg{C: "A", A: []float64{w / 2, h / 2, 0, 0, 1, x + w, y + h/2}}, Seg{C: "Z"})
+		}
+	}
+	return sh
+}
+
 func genShape(r *simrt.Rand, l latticeCfg) *Shape {
 	switch x := r.Intn(100); {
 	case x < 35:
@@ -252,6 +273,8 @@ func genGeometryStep(r *simrt.Rand, l latticeCfg, tols []float64) Step {
 		a := genShape(r, l)
 		if r.Bool(0.25) {
 			a = genCurvy(r, l)
+		} else if r.Bool(0.08) {
+			a = genManyContours(r, l)
 		}
 		return Step{Op: "stroke", A: a, W: []float64{0.3, 1, 2.5, l.cell}[r.Intn(4)], Cap: r.Intn(3), Join: r.Intn(6), Tol: tols[r.Intn(len(tols))]}
 	case x < 73:
@@ -261,7 +284,11 @@ func genGeometryStep(r *simrt.Rand, l latticeCfg, tols []float64) Step {
 		}
 		return Step{Op: "offset", A: genShape(r, l), W: w, Tol: tols[r.Intn(len(tols))]}
 	case x < 79:
-		return Step{Op: "flatten", A: curvyOr(), Tol: tols[r.Intn(len(tols))]}
+		a := curvyOr()
+		if r.Bool(0.1) {
+			a = genManyContours(r, l)
+		}
+		return Step{Op: "flatten", A: a, Tol: tols[r.Intn(len(tols))]}
 	case x < 82:
 		return Step{Op: []string{"clip", "simplify", "gridsnap"}[r.Intn(3)], A: genShape(r, l), W: l.cell * (0.5 + float64(r.Intn(3))), Tol: []float64{0.1, 0.5, 2}[r.Intn(3)]}
 	case x < 96:
@@ -286,7 +313,26 @@ var sampleTexts = []string{
 	"Zwölf Boxkämpfer jagen Viktor",
 }
 
-func genTextStep(r *simrt.Rand, nfonts int) Step {
+var vocabulary = []string{"a", "in", "of", "the", "and", "to", "it", "was", "fountain", "golden", "forest", "favorite", "princess", "extraordinarily", "that", "when", "high", "day", "took", "close",
+	"into", "king's", "castle", "well", "whenever", "youngest", "beautiful", "sun", "itself", "astonished", "old", "times", "wishing", "still", "helped", "one", "lived", "whose",
+	"daughters", "were", "all", "but", "so", "which", "has", "seen", "much", "shone", "her", "face", "by", "lay", "great", "dark", "under", "lime-tree", "incomprehensibilities"}
+
+// genParagraph: a paragraph of n words from a small vocabulary with some very long words: narrow
+// columns then need loose lines (the line breaker's harder paths).
+func genParagraph(r *simrt.Rand, n int) string {
+	out := ""
+	for i := 0; i < n; i++ {
+		if i > 0 {
+			out += " "
+		}
+		out += vocabulary[r.Intn(len(vocabulary))]
+	}
+	return out
+}
+
+// genTextStep: colW is the run's "column width" (most boxes of a run share it, like the columns of
+// one document).
+func genTextStep(r *simrt.Rand, nfonts int, colW float64) Step {
 	st := Step{
 		Font:    r.Intn(nfonts),
 		Text:    sampleTexts[r.Intn(len(sampleTexts))],
@@ -297,16 +343,30 @@ func genTextStep(r *simrt.Rand, nfonts int) Step {
 		HAlign:  r.Intn(4),
 		VAlign:  r.Intn(4),
 	}
-	switch r.Intn(3) {
+	switch r.Intn(4) {
 	case 0:
 		st.Op = "textline"
 	case 1:
 		st.Op = "textbox"
 		st.Width = []float64{0, 30, 60, 100}[r.Intn(4)]
 		st.Height = []float64{0, 0, 20, 50}[r.Intn(4)]
+	case 2:
+		// a paragraph in the run's column
+		st.Op = "textbox"
+		st.Text = genParagraph(r, 12+r.Intn(40))
+		st.Size = []float64{10, 12, 12, 14}[r.Intn(4)]
+		st.Width = colW
+		if r.Bool(0.2) {
+			st.Width = []float64{20, 25, 34, 45, 60}[r.Intn(5)]
+		}
+		st.Variant, st.Deco = 0, 0
 	default:
 		st.Op = "richtext"
 		st.Width = []float64{40, 60, 100}[r.Intn(3)]
+		if r.Bool(0.4) {
+			st.Width = colW
+			st.Text = genParagraph(r, 10+r.Intn(25))
+		}
 		st.Height = []float64{0, 30}[r.Intn(2)]
 	}
 	return st
@@ -350,8 +410,8 @@ func genDrawing(r *simrt.Rand, l latticeCfg, nfonts int) *Drawing {
 			if r.Bool(0.6) {
 				it.SW = []float64{0.2, 0.5, 1.5}[r.Intn(3)]
 			}
-			if it.SW > 0 && r.Bool(0.3) {
-				it.Dashes = []float64{1, 0.5}
+			if it.SW > 0 && r.Bool(0.35) {
+				it.Dashes = [][]float64{{1, 0.5}, {2, 1, 0.5}, {0.7}, {3, 1}, {0.5, 0.5, 2, 0.5}}[r.Intn(5)]
 			}
 		}
 		d.Items = append(d.Items, it)
@@ -360,6 +420,14 @@ func genDrawing(r *simrt.Rand, l latticeCfg, nfonts int) *Drawing {
 }
 
 var formats = []string{"pdf", "svg", "ps", "eps", "png"}
+
+// genDrawThenRender returns a draw call and the render call that follows it later in the same task.
+func genDrawThenRender(r *simrt.Rand, l latticeCfg, nfonts int) (Step, Step) {
+	rs := genRenderStep(r, l, nfonts)
+	draw := Step{Op: "draw", Draw: rs.Draw}
+	rs.Op, rs.Draw, rs.Repeat = "renderdrawn", nil, false
+	return draw, rs
+}
 
 func genRenderStep(r *simrt.Rand, l latticeCfg, nfonts int) Step {
 	st := Step{Op: "render", Draw: genDrawing(r, l, nfonts), Format: formats[r.Intn(len(formats))], Opt: r.Intn(8)}
@@ -469,6 +537,7 @@ func GenRun(verifSeed uint64, run int, tier string, profiles []string) *RunSpec 
 		}
 	}
 
+	colW := []float64{20, 25, 34, 34, 45, 60}[cfgR.Intn(6)]
 	for t := 0; t < ntasks; t++ {
 		ts := TaskSpec{MapSeed: simrt.Mix(seed, 0x6d6170, uint64(t))}
 		ns := 1 + wl.Intn(maxSteps)
@@ -481,7 +550,7 @@ func GenRun(verifSeed uint64, run int, tier string, profiles []string) *RunSpec 
 				if wl.Bool(0.8) {
 					st = genFontStep(wl, nf)
 				} else {
-					st = genTextStep(wl, nf)
+					st = genTextStep(wl, nf, colW)
 				}
 			case "syscache":
 				switch y := wl.Intn(20); {
@@ -493,7 +562,7 @@ func GenRun(verifSeed uint64, run int, tier string, profiles []string) *RunSpec 
 					st = Step{Op: "syscache", Opt: 1 + wl.Intn(2)}
 				}
 			case "text":
-				st = genTextStep(wl, nf)
+				st = genTextStep(wl, nf, colW)
 			case "render":
 				if wl.Bool(0.15) {
 					st = Step{Op: "fontinfo", Font: wl.Intn(nf)}
@@ -505,7 +574,7 @@ func GenRun(verifSeed uint64, run int, tier string, profiles []string) *RunSpec 
 				case y < 4:
 					st = genGeometryStep(wl, l, tols)
 				case y < 6:
-					st = genTextStep(wl, nf)
+					st = genTextStep(wl, nf, colW)
 				case y < 7:
 					if wl.Bool(0.3) {
 						st = Step{Op: "fontinfo", Font: wl.Intn(nf)}
@@ -515,6 +584,15 @@ func GenRun(verifSeed uint64, run int, tier string, profiles []string) *RunSpec 
 				default:
 					st = genRenderStep(wl, l, nf)
 				}
+			}
+			if st.Op == "render" && st.FailAt == 0 && wl.Bool(0.3) {
+				// draw now, render later: other calls of this task (and other tasks) come in between
+				d, rr := genDrawThenRender(wl, l, nf)
+				ts.Steps = append(ts.Steps, d)
+				if wl.Bool(0.5) {
+					ts.Steps = append(ts.Steps, genGeometryStep(wl, l, tols))
+				}
+				st = rr
 			}
 			ts.Steps = append(ts.Steps, st)
 		}
